@@ -68,6 +68,9 @@ type simGitLab struct {
 	failMode string // "403" | "500-from" (everything from failAt on) | "drop-from"
 	log      []string
 	srv      *httptest.Server
+	// hook run (without the lock) when a request path contains hookPath, once
+	hookPath string
+	hook     func()
 }
 
 func (g *simGitLab) tick() time.Time {
@@ -124,6 +127,13 @@ func page[T any](w http.ResponseWriter, r *http.Request, items []T) []T {
 
 func (g *simGitLab) serve(w http.ResponseWriter, r *http.Request) {
 	g.mu.Lock()
+	if g.hook != nil && g.hookPath != "" && strings.Contains(r.URL.Path, g.hookPath) {
+		h := g.hook
+		g.hook = nil
+		g.mu.Unlock()
+		h()
+		g.mu.Lock()
+	}
 	defer g.mu.Unlock()
 	idx := g.requests
 	g.requests++
@@ -547,6 +557,7 @@ func runC16(c *runCtx) {
 		c16Rounds(c, c.rng.fork(), false)
 	}
 	c16Failures(c, c.rng.fork())
+	c16SlowRun(c, c.rng.fork())
 	c16Rounds(c, c.rng.fork(), true) // overlapping id spaces
 }
 
@@ -562,6 +573,14 @@ func c16Rounds(c *runCtx, r *rng, overlap bool) {
 		return "C16/" + k
 	}
 	pending := g.grow(r, r.rangeInt(6, 14))
+	// every session has a comment that text.Cleanup alters (CRLF, spaces around, trailing newline)
+	g.mu.Lock()
+	if len(g.issues) > 0 {
+		t := g.tick()
+		g.issues[0].Notes = append(g.issues[0].Notes, simNote{ID: g.id("note"), Body: "  spaces around, crlf\r\nsecond line, bell \x07 and a trailing newline\n", Author: g.issues[0].Author, Created: t, Updated: t})
+		g.issues[0].Updated = t
+	}
+	g.mu.Unlock()
 	rounds := c.pick(4, 8)
 	var log []string
 	for round := 0; round < rounds; round++ {
@@ -712,4 +731,56 @@ func c16Failures(c *runCtx, r *rng) {
 		g.srv.Close()
 		env.rc.Close()
 	}
+}
+
+// c16SlowRun: the tracker changes while an import run that lasts longer than the cursor's
+// five-second margin is under way, on an issue the run has already passed.
+func c16SlowRun(c *runCtx, r *rng) {
+	g := newSimGitLab(false)
+	defer g.srv.Close()
+	env := newC16Env(g)
+	for len(g.issues) < 2 {
+		g.grow(r, 4)
+	}
+	g.mu.Lock()
+	g.clock = time.Now()
+	g.mu.Unlock()
+	if res := env.importRound(true); len(res.errors) > 0 || res.crashed != "" {
+		c.violation(-1, "C16/import-error", fmt.Sprintf("clean import fails: %v", res.errors), nil)
+		return
+	}
+	// both issues change, so the next run lists both; while the second one is being fetched
+	// (the first is done), the first gets a new comment, and that request takes six seconds
+	g.mu.Lock()
+	sort.SliceStable(g.issues, func(i, j int) bool { return g.issues[i].Created.Before(g.issues[j].Created) })
+	first, last := g.issues[0], g.issues[len(g.issues)-1]
+	now := time.Now()
+	for _, is := range g.issues {
+		is.Notes = append(is.Notes, simNote{ID: g.id("note"), Body: "before the slow run", Author: is.Author, Created: now, Updated: now})
+		is.Updated = now
+	}
+	g.hookPath = fmt.Sprintf("/issues/%d/", last.IID)
+	g.hook = func() {
+		g.mu.Lock()
+		t := time.Now()
+		first.Notes = append(first.Notes, simNote{ID: g.id("note"), Body: "added while the import was running", Author: first.Author, Created: t, Updated: t})
+		first.Updated = t
+		g.mu.Unlock()
+		time.Sleep(6 * time.Second)
+	}
+	g.mu.Unlock()
+	c.context("tracker updated during a slow import run")
+	res := env.importRound(true)
+	res2 := env.importRound(true)
+	c.count("slow-run")
+	c.nontrivial("slow-run")
+	if len(res.errors)+len(res2.errors) > 0 || res.crashed != "" || res2.crashed != "" {
+		c.violation(-1, "C16/import-error", fmt.Sprintf("slow run: errors %v %v", res.errors, res2.errors), nil)
+	}
+	want := g.expected()
+	got, _, _ := c16Actual(env.rc)
+	if mustJSON(want) != mustJSON(got) {
+		c.violation(-1, "C16/update-during-run-lost", fmt.Sprintf("a comment added to an issue while a slow import run (6 s) had already passed it is never imported: %s", trunc(firstDiff(mustJSON(want), mustJSON(got)), 300)), map[string]any{"want": want, "got": got})
+	}
+	env.rc.Close()
 }
